@@ -6,7 +6,7 @@
    a list of steps ([Emit] = one insert_desired_file call, [Fail] = a materialisation error) and the
    roots, [run] = the inserts into the (target, path) map, dedup_roots.  Keys compare paths by
    COMPONENTS (Rust's Path equality), contents are bytes. *)
-From AP Require Import Base.Str Base.PathR Base.Sorting Model.Render Proofs.RenderP.
+From AP Require Import Base.Str Base.PathR Base.Sorting Model.Render Proofs.RenderP Proofs.RenderOrderP.
 From Coq Require Import Sorting.Permutation.
 Open Scope N_scope.
 
@@ -62,6 +62,16 @@ Theorem C12_merge : forall c e prof filt ms ts D R,
 Proof. exact merge_thm. Qed.
 Print Assumptions C12_merge.
 
+(* Directory iteration order: module trees are consumed as SETS.  If c' differs from c only in the
+   order of each module's file list ([same_cfg]: Forall2 [same_tree] = all other fields equal,
+   Permutation of the file lists, relative paths of a tree pairwise distinct), both render to the same
+   error, or to desired maps that agree at every key on bytes and module_ids ([deq]) with identical
+   roots. *)
+Theorem C12_tree_order : forall c c' e prof filt,
+  same_cfg c c' -> req res_eq (render c e prof filt) (render c' e prof filt).
+Proof. exact render_same. Qed.
+Print Assumptions C12_tree_order.
+
 (* ---------- non-vacuity ---------- *)
 
 Definition x_env : env := mkEnv (s "/h") (s "/p") None.
@@ -100,3 +110,25 @@ Example C12_perm_example :
   | _ => False
   end.
 Proof. vm_compute. repeat split; reflexivity. Qed.
+
+Definition x_skill (files : list file) : module :=
+  mkModule (s "skill:k") TSkill true [s "a"] [] files true (s "0000000000").
+Definition x_files : list file :=
+  [mkFile [s "SKILL.md"] [1] true; mkFile [s "ref"; s "b.md"] [2] true; mkFile [s "a.txt"] [3] true].
+
+Example C12_tree_order_example :
+  same_cfg (x_cfg [x_skill x_files]) (x_cfg [x_skill (rev x_files)]) /\
+  match render (x_cfg [x_skill x_files]) x_env (s "default") (s "all"),
+        render (x_cfg [x_skill (rev x_files)]) x_env (s "default") (s "all") with
+  | Ok (D, _), Ok (D', _) => length D = 3%nat /\ map d_key D = rev (map d_key D')   (* inserted in opposite orders *)
+  | _, _ => False
+  end.
+Proof.
+  split.
+  - repeat split; try reflexivity. constructor; [|constructor]. repeat split; try reflexivity.
+    + simpl. apply Permutation_rev.
+    + simpl. repeat constructor; simpl; intuition discriminate.
+  - vm_compute. split; reflexivity.
+Qed.
+
+
